@@ -816,6 +816,12 @@ func splitInlineBox(context *layoutContext, box_ Box, positionX, maxX, bottomSpa
 	rightSpacing := box.PaddingRight.V() + box.MarginRight.V() + box.BorderRightWidth.V()
 	contentBoxLeft := positionX
 
+	if bo.InlineT.IsInstance(box_) && (box.Style.GetBoxDecorationBreak() == "clone" || (isStart && box.Style.GetDirection() == "ltr")) {
+		// The children are laid out from positionX and translated by
+		// leftSpacing afterwards: this room is not available to them.
+		maxX -= leftSpacing
+	}
+
 	if box.Style.GetPosition().String == "relative" {
 		absoluteBoxes = &[]*AbsolutePlaceholder{}
 	}
